@@ -2,19 +2,19 @@ SPECIFICATION Spec
 CONSTANTS
   NameSeq <- NamesAB
   MaxFile = 3
-  MaxLen = 4
+  MaxLen = 5
   Counts <- Counts12
-  CfgSet <- CfgRefs
-  MODE = "refs"
+  CfgSet <- CfgDir
+  MODE = "dir"
   Fails <- NoFail
   MAXHOST = 2
   BUG_CREATE_LEAK = TRUE
   BUG_PROBE_LEAK = TRUE
   BUG_DOTS = TRUE
-  DirN <- Dir02
-  MAXSEEK = 1000
-  SPECIAL_A = TRUE
-  Sample = 40
+  DirN <- Dir04
+  MAXSEEK = 35
+  SPECIAL_A = FALSE
+  Sample = 500
   WithDetail <- NoDetail
 INVARIANTS NoViol Resolves
 CONSTRAINT Export
